@@ -156,6 +156,8 @@ pub struct ValueCtx<'a> {
     pub vars: Option<&'a mut VarPool>,
     pub features: &'a mut BTreeSet<String>,
     pub depth: usize,
+    /// the position being filled has a default value of its own (argument / input field default)
+    pub loc_default: bool,
 }
 
 #[derive(Clone, Debug, Default)]
@@ -165,34 +167,66 @@ pub struct VarPool {
 }
 
 impl VarPool {
-    /// find or create a variable usable at a position of type `ty`
-    pub fn var_for(&mut self, rng: &mut Rng, ty: &Ty, cfg: &GenCfg, schema: &SchemaModel, features: &mut BTreeSet<String>) -> String {
+    /// find or create a variable usable at a position of type `ty` (spec IsVariableUsageAllowed);
+    /// `loc_default`: the position has a default value of its own
+    pub fn var_for(&mut self, rng: &mut Rng, ty: &Ty, loc_default: bool, cfg: &GenCfg, schema: &SchemaModel, features: &mut BTreeSet<String>) -> String {
         let strip = |t: &Ty| strip_ty(t);
         let want = strip(ty);
-        let cands: Vec<usize> = self
-            .vars
-            .iter()
-            .enumerate()
-            .filter(|(_, v)| strip(&v.ty) == want || (!want.is_non_null() && strip(&v.ty) == Ty::non_null(want.clone())))
-            .map(|(i, _)| i)
-            .collect();
+        let nullable_want = match &want {
+            Ty::NonNull(i) => Some((**i).clone()),
+            _ => None,
+        };
+        let usable = |v: &VarDef| -> bool {
+            let vt = strip(&v.ty);
+            if vt == want || (!want.is_non_null() && vt == Ty::non_null(want.clone())) {
+                return true;
+            }
+            // nullable variable at a non-null position: allowed when the variable has a non-null default
+            // or the position has a default
+            if let Some(nw) = &nullable_want {
+                if vt == *nw {
+                    let has_nonnull_default = matches!(&v.default, Some(d) if !matches!(d, Val::Null(_)));
+                    return has_nonnull_default || loc_default;
+                }
+            }
+            false
+        };
+        let cands: Vec<usize> = self.vars.iter().enumerate().filter(|(_, v)| usable(v)).map(|(i, _)| i).collect();
         if !cands.is_empty() && rng.coin() {
             return self.vars[cands[rng.below(cands.len())]].name.clone();
         }
         self.counter += 1;
         let name = format!("v{}", self.counter);
-        // declared type: exactly the position's type, or its non-null version (stricter is allowed)
+        // declared type: exactly the position's type, or its non-null version (stricter is allowed), or — at a
+        // non-null position — the nullable version when a default value makes that legal
         let mut vty = want.clone();
-        if !vty.is_non_null() && rng.chance(1, 4) {
-            vty = Ty::non_null(vty);
-            features.insert("var:stricter-nonnull".into());
-        }
         let mut default = None;
-        if cfg.defaults && !vty.is_non_null() && rng.chance(1, 4) {
-            let mut f = BTreeSet::new();
-            let mut ctx = ValueCtx { schema, cfg, vars: None, features: &mut f, depth: 0 };
-            default = Some(gen_value(rng, &vty, &mut ctx));
-            features.insert("var:default".into());
+        let mut done = false;
+        if let Some(nw) = &nullable_want {
+            if cfg.defaults && rng.chance(1, 5) {
+                let mut f = BTreeSet::new();
+                let mut ctx = ValueCtx { schema, cfg, vars: None, features: &mut f, depth: 0, loc_default: false };
+                default = Some(gen_value_nn(rng, nw, &mut ctx));
+                vty = nw.clone();
+                features.insert("var:nullable-with-default-at-nonnull-position".into());
+                done = true;
+            } else if loc_default && rng.chance(1, 2) {
+                vty = nw.clone();
+                features.insert("var:nullable-at-nonnull-position-with-location-default".into());
+                done = true;
+            }
+        }
+        if !done {
+            if !vty.is_non_null() && rng.chance(1, 4) {
+                vty = Ty::non_null(vty);
+                features.insert("var:stricter-nonnull".into());
+            }
+            if cfg.defaults && !vty.is_non_null() && rng.chance(1, 4) {
+                let mut f = BTreeSet::new();
+                let mut ctx = ValueCtx { schema, cfg, vars: None, features: &mut f, depth: 0, loc_default: false };
+                default = Some(gen_value(rng, &vty, &mut ctx));
+                features.insert("var:default".into());
+            }
         }
         self.vars.push(VarDef { name: name.clone(), pos: P::default(), ty: vty, default, dirs: vec![] });
         name
@@ -209,10 +243,14 @@ pub fn strip_ty(t: &Ty) -> Ty {
 
 /// a literal (or variable) valid for input type `ty`
 pub fn gen_value(rng: &mut Rng, ty: &Ty, ctx: &mut ValueCtx) -> Val {
-    if ctx.cfg.variables && ctx.depth == 0 && rng.chance(1, 4) {
+    let var_odds = if ctx.depth == 0 { 4 } else if ctx.loc_default && ty.is_non_null() { 2 } else { 7 };
+    if ctx.cfg.variables && ctx.depth <= 3 && rng.chance(1, var_odds) {
         if let Some(pool) = ctx.vars.as_deref_mut() {
-            let n = pool.var_for(rng, ty, ctx.cfg, ctx.schema, ctx.features);
-            ctx.features.insert("value:variable".into());
+            let n = pool.var_for(rng, ty, ctx.loc_default, ctx.cfg, ctx.schema, ctx.features);
+            ctx.features.insert(if ctx.depth == 0 { "value:variable".into() } else { "value:variable-nested".to_string() });
+            if ctx.depth > 0 && ctx.loc_default && ty.is_non_null() {
+                ctx.features.insert("value:variable-in-nonnull-input-field-with-default".into());
+            }
             return Val::Var(n, P::default());
         }
     }
@@ -242,7 +280,10 @@ fn gen_value_nn(rng: &mut Rng, ty: &Ty, ctx: &mut ValueCtx) -> Val {
             }
             let n = if ctx.depth > 3 { 0 } else { rng.below(3) };
             ctx.depth += 1;
+            let saved = ctx.loc_default;
+            ctx.loc_default = false;
             let vs = (0..n).map(|_| gen_value(rng, inner, ctx)).collect();
+            ctx.loc_default = saved;
             ctx.depth -= 1;
             ctx.features.insert("value:list".into());
             Val::List(vs, P::default())
@@ -286,7 +327,10 @@ fn gen_value_nn(rng: &mut Rng, ty: &Ty, ctx: &mut ValueCtx) -> Val {
                             if deep && !f.ty.is_non_null() {
                                 fs.push(Arg::new(&f.name, Val::Null(P::default())));
                             } else {
+                                let saved = ctx.loc_default;
+                                ctx.loc_default = f.default.is_some();
                                 fs.push(Arg::new(&f.name, gen_value(rng, &f.ty, ctx)));
+                                ctx.loc_default = saved;
                             }
                         } else {
                             ctx.features.insert("value:input-object-omitted-field".into());
@@ -369,10 +413,10 @@ pub fn gen_schema(rng: &mut Rng, cfg: &GenCfg) -> SchemaModel {
     if cfg.defaults {
         for t in input_defs.iter_mut() {
             for f in t.inputs.iter_mut() {
-                if rng.chance(1, 5) && leaf_inputs.contains(&f.ty.unwrapped().to_string()) {
+                if rng.chance(1, 3) && leaf_inputs.contains(&f.ty.unwrapped().to_string()) {
                     let mut fs = BTreeSet::new();
                     let c2 = GenCfg { variables: false, ..cfg.clone() };
-                    let mut ctx = ValueCtx { schema: &prov, cfg: &c2, vars: None, features: &mut fs, depth: 1 };
+                    let mut ctx = ValueCtx { schema: &prov, cfg: &c2, vars: None, features: &mut fs, depth: 1, loc_default: false };
                     f.default = Some(gen_value(rng, &f.ty, &mut ctx));
                 }
             }
@@ -417,7 +461,7 @@ pub fn gen_schema(rng: &mut Rng, cfg: &GenCfg) -> SchemaModel {
                 if cfg.defaults && rng.chance(1, 4) {
                     let mut fs = BTreeSet::new();
                     let c2 = GenCfg { variables: false, ..cfg.clone() };
-                    let mut ctx = ValueCtx { schema: &prov, cfg: &c2, vars: None, features: &mut fs, depth: 1 };
+                    let mut ctx = ValueCtx { schema: &prov, cfg: &c2, vars: None, features: &mut fs, depth: 1, loc_default: false };
                     a.default = Some(gen_value(rng, &a.ty, &mut ctx));
                 }
                 a.desc = gen_desc(rng, cfg);
@@ -707,7 +751,7 @@ impl<'a> DocGen<'a> {
             if required || rng.coin() {
                 // share the document-wide counter so variable names are unique per type
                 pool.counter = self.global_vars.counter;
-                let mut ctx = ValueCtx { schema: self.schema, cfg: self.cfg, vars: Some(pool), features: &mut self.features, depth: 0 };
+                let mut ctx = ValueCtx { schema: self.schema, cfg: self.cfg, vars: Some(pool), features: &mut self.features, depth: 0, loc_default: a.default.is_some() };
                 let v = gen_value(rng, &a.ty, &mut ctx);
                 self.global_vars.counter = pool.counter;
                 out.push(Arg::new(&a.name, v));
@@ -845,7 +889,25 @@ impl<'a> DocGen<'a> {
             let target = f.ty.unwrapped().to_string();
             let args = self.gen_args(rng, &f.args, &mut pool);
             let sub = if self.schema.is_composite(&target) { Some(self.gen_selset(rng, &target, 1, &mut pool)) } else { None };
-            sel = vec![Sel::Field { alias: None, name: f.name.clone(), name_pos: P::default(), args, dirs: vec![], sel: sub }];
+            let alias = if rng.chance(1, 3) {
+                self.alias_counter += 1;
+                self.features.insert("subscription:aliased-root".into());
+                Some((format!("s{}", self.alias_counter), P::default()))
+            } else {
+                None
+            };
+            let one = Sel::Field { alias, name: f.name.clone(), name_pos: P::default(), args, dirs: vec![], sel: sub };
+            sel = vec![one.clone()];
+            // the same response key selected again (directly or through an inline fragment on the root type)
+            // is still ONE root field (spec 5.2.3.1 counts the collected fields)
+            if rng.chance(1, 3) {
+                self.features.insert("subscription:repeated-root-field".into());
+                if rng.coin() {
+                    sel.push(one);
+                } else {
+                    sel.push(Sel::Inline { cond: Some((root.clone(), P::default())), dirs: vec![], sel: vec![one], pos: P::default() });
+                }
+            }
         }
         let mut dirs = vec![];
         if self.cfg.directives && self.schema.directive_defs().any(|d| d.name == "tag") && rng.chance(1, 8) {
